@@ -384,7 +384,7 @@ class MEDDLY::mpzcard {
         static inline void doneTemp(oper_item& temp) {
             mpz_ptr t = temp.hugeint();
             mpz_clear(t);
-            delete t;
+            delete[] t;     // mpz_t is an array type: allocated by new[]
         }
 
         static inline void show(output &out, const oper_item &val) {
